@@ -6,6 +6,8 @@ Decided:
  CFG  both loops of the digit-by-digit algorithm terminate for every input of every 8..128-bit rep: scalar evolution gives
       a constant trip bound, or the shift ranking rule applies (the loop-carried value is only ever replaced by itself
       shifted right by >= 1 and the loop exits when it is 0 / no longer greater than a loop-invariant non-negative value).
+ FLOW the operand does not reach the result only through a floating-point conversion that loses digits (then two operands
+      with different roots would be indistinguishable: seeded change M-C19-7).
  UB   no shift-out-of-range survives in the compiled function for any rep width (the initial bit position).
 Not decided: that the returned root is floor(sqrt(x)) (loop over run-time values), including root + bit at the top of the range.
 """
@@ -163,6 +165,56 @@ WIDE = [("cnl::wide_integer<129, unsigned>", 129), ("cnl::wide_integer<191, int>
         ("cnl::wide_integer<256, unsigned>", 256), ("cnl::wide_integer<300, int>", 300), ("cnl::wide_integer<1000, unsigned>", 1000)]
 
 
+MANT = {"half": 11, "float": 24, "double": 53, "x86_fp80": 64, "fp128": 113}
+
+
+def lossy_detour(fn, T):
+    """Information-flow rule.  If every use of the operand in the compiled function is a conversion to a floating type with
+    fewer significant bits than the operand type has digits (apart from comparisons that only feed llvm.assume), the result
+    is a function of that rounded value alone.  Two operands that round to the same floating value but have different
+    integer square roots then refute the property without any knowledge of what is done with the floating value.
+    Returns None (rule does not apply) or (instruction, mantissa, x1, x2, r)."""
+    if not fn.params:
+        return None
+    arg = "%0"
+    lines = [l for lab in fn.order for l in fn.blocks[lab]]
+    uses = [l for l in lines if re.search(r"(?<![\w.])%s(?![\w.])" % re.escape(arg), l.split("=", 1)[-1] if re.match(r"^%\S+\s*=", l) else l)]
+    conv = None
+    for l in uses:
+        m = re.match(r"^(%\S+)\s*=\s*(?:sitofp|uitofp) i\d+ %0 to (\w+)$", l)
+        if m and m.group(2) in MANT:
+            if MANT[m.group(2)] >= T.digits:
+                return None                      # an exact conversion: not decided here
+            conv = (l, MANT[m.group(2)]) if conv is None or MANT[m.group(2)] > conv[1] else conv
+            continue
+        m = re.match(r"^(%\S+)\s*=\s*icmp \w+ i\d+ %0, -?\d+$", l)
+        if m:
+            v = m.group(1)
+            others = [u for u in lines if u is not l and re.search(r"(?<![\w.])%s(?![\w.])" % re.escape(v), u)]
+            if others and all("@llvm.assume" in u for u in others):
+                continue
+        return None                              # the operand is used in some other way: the rule does not apply
+    if conv is None:
+        return None
+    mant = conv[1]
+
+    def rn(x):                                   # round to nearest, ties to even, to `mant` significant bits
+        k = x.bit_length() - mant
+        if k <= 0:
+            return x
+        q, rem = x >> k, x & ((1 << k) - 1)
+        half = 1 << (k - 1)
+        if rem > half or (rem == half and (q & 1)):
+            q += 1
+        return q << k
+    r0 = math.isqrt(T.max)
+    for rr in range(r0, max(r0 - 100000, 1), -1):
+        x2, x1 = rr * rr, rr * rr - 1
+        if rn(x1) == rn(x2):
+            return conv[0], mant, x1, x2, rr
+    return None
+
+
 def start_bit_builtin(fn, digits):
     """the first phi of the function with a constant incoming from the entry block"""
     entry = fn.order[0]
@@ -240,7 +292,7 @@ def run(tier, seed, work):
         raise tc.AnalysisBroken("sqrt TU does not compile: " + se[:1500])
     mod = ir.parse_module(open(out2).read())
     bounds = scev_bounds(out2)
-    nloops, nbounded, nranked, samples = 0, 0, 0, []
+    nloops, nbounded, nranked, samples, nflow = 0, 0, 0, [], 0
     for T in REPS:
         fn = mod.functions.get("sq_" + T.short)
         if fn is None:
@@ -252,6 +304,12 @@ def run(tier, seed, work):
             r.broke("sanitized sqrt kernel for %s missing" % T.short)
         elif "@llvm.ubsantrap(i8 20)" in ubfn.text():
             r.violation("ub/shift/" + T.short, "cnl::sqrt<%s>: an out-of-range shift is not excluded (the initial bit position or bit >>= 2)" % T.name, {"ir": txt})
+        ld = lossy_detour(fn, T)
+        nflow += 1
+        if ld is not None:
+            r.violation("lossy-detour/" + T.short, "cnl::sqrt<%s>: the operand reaches the result only through `%s` (%d significant bits for a %d-digit operand): %d and %d convert to the same floating value "
+                        "(round to nearest) but their integer square roots are %d and %d, so the result is wrong for one of them whatever is computed from the converted value" % (
+                            T.name, ld[0].strip(), ld[1], T.digits, ld[2], ld[3], ld[4] - 1, ld[4]), {"ir": txt, "x1": ld[2], "x2": ld[3]})
         rr = dict((h, (ok, why)) for h, ok, why in ranking_rule(fn))
         sb = bounds.get("sq_" + T.short, {})
         if not rr:
@@ -267,6 +325,10 @@ def run(tier, seed, work):
                 samples.append({"rep": T.short, "loop": h, "ranking": why})
             else:
                 r.violation("loop/%s/%s" % (T.short, h), "cnl::sqrt<%s>: loop %s has neither a scalar-evolution bound nor the shift ranking function (%s): termination not established" % (T.name, h, why), {"ir": txt})
+    cmod = ir.parse_module("define dso_local i64 @ctl(i64 noundef %0) local_unnamed_addr {\n1:\n  %2 = sitofp i64 %0 to double\n  %3 = tail call double @sqrt(double noundef %2)\n"
+                           "  %4 = fptosi double %3 to i64\n  ret i64 %4\n}\n")
+    if lossy_detour(cmod.functions["ctl"], I64) is None or lossy_detour(cmod.functions["ctl"], I32) is not None:
+        r.broke("information-flow control: a square root taken through double was not reported for int64 (or was for int32)")
     # start-bit rule
     nstart = 0
     for T in REPS:
@@ -309,10 +371,10 @@ def run(tier, seed, work):
     common.floor_check(r, "odd-exponent witnesses rejected", nw, 5)
     common.floor_check(r, "loops with an established bound/ranking", nbounded + nranked, 16)
     r.coverage = {
-        "explanation": "Result-type facts, compile-fail witnesses for odd exponents, termination of both loops for every rep (scalar evolution or the shift ranking rule), absence of out-of-range shifts, and the start-bit rule (the algorithm starts from the largest power of four of the type, for built-in and multi-word reps). That the root is floor(sqrt(x)) is NOT decided.",
+        "explanation": "Result-type facts, compile-fail witnesses for odd exponents, termination of both loops for every rep (scalar evolution or the shift ranking rule), absence of out-of-range shifts, and the start-bit rule (the algorithm starts from the largest power of four of the type, for built-in and multi-word reps), and an information-flow rule (the operand must not reach the result only through a conversion to a floating type with fewer significant bits than the operand has digits). That the root is floor(sqrt(x)) is NOT decided.",
         "evaluations": len(F) + len(W) + nloops, "distinct_nontrivial": nf["proved"] + nw + nbounded + nranked,
         "rule": "non-trivial = proved type fact, rejected witness, loop with an established termination argument",
-        "type_facts": len(F), "type_facts_proved": nf["proved"], "witnesses_rejected": nw, "loops": nloops, "loops_scev_bounded": nbounded, "loops_ranked": nranked, "start_bit_instances": nstart,
+        "type_facts": len(F), "type_facts_proved": nf["proved"], "witnesses_rejected": nw, "loops": nloops, "loops_scev_bounded": nbounded, "loops_ranked": nranked, "start_bit_instances": nstart, "information_flow_instances": nflow,
         "samples": samples[:8], "exhaustive": False,
     }
     r.assumptions = ["x >= 0 (the function's own precondition)"]
